@@ -433,14 +433,23 @@ pub fn fault(a: &Args, rep: &mut Report) {
                         }
                     }
                     // later operations behave normally
+                    // Basic calls only, judged by model equality only (rules of other properties
+                    // stay non-fatal): what is asked here is whether the panic damaged the map,
+                    // not whether every other contract of the crate holds.
                     let mut g = Gen::new(hr.next(), Profile::General, 64, 0, 400);
-                    f.mon.focus = "";
+                    f.mon.focus = "C07";
                     f.mon.conserve = true;
                     for _ in 0..(if miri { 3 } else { 25 }) {
-                        let o = g.random_op(&f.mon);
-                        if matches!(o.code, Code::Probe | Code::FromIter | Code::WithCapacity) {
-                            continue;
-                        }
+                        let key = if hr.chance(1, 2) { g.pick_key(&f.mon) } else { g.new_key(&f.mon) };
+                        let o = match hr.below(20) {
+                            0..=8 => Op::kv(Code::Insert, key, hr.below(1000)),
+                            9..=11 => Op::k(Code::Get, key),
+                            12 => Op::kv(Code::GetMut, key, hr.below(1000)),
+                            13 => Op::k(Code::ContainsKey, key),
+                            14..=17 => Op::k(Code::Remove, key),
+                            18 => Op::k(Code::RemoveEntry, key),
+                            _ => Op::new(Code::FullCheck),
+                        };
                         if !f.go(o) {
                             break;
                         }
@@ -456,11 +465,27 @@ pub fn fault(a: &Args, rep: &mut Report) {
                         // well, the panic is not what broke the map: that is the other
                         // property's finding, not C07's.
                         let n_pre = prefix.len() + 1;
+                        // control 1: everything, the faulted call executed without the fault;
+                        // control 2: the faulted call left out (after most faults the map is in
+                        // exactly its pre-call state)
                         let mut ctl: Sess<T, T> = Sess::new(&cfg);
-                        ctl.mon.focus = "";
+                        ctl.mon.focus = "C07";
                         for o in &opsv {
                             if !ctl.go(o.clone()) {
                                 break;
+                            }
+                        }
+                        if ctl.viol.is_none() {
+                            let _ = ctl.finish();
+                            ctl = Sess::new(&cfg);
+                            ctl.mon.focus = "C07";
+                            for (j, o) in opsv.iter().enumerate() {
+                                if j + 1 == n_pre {
+                                    continue;
+                                }
+                                if !ctl.go(o.clone()) {
+                                    break;
+                                }
                             }
                         }
                         let control_fails = ctl.viol.is_some();
